@@ -207,7 +207,10 @@ class Engine:
         if typ == "any":
             return VBox(path.fresh(name, PV))
         if typ == "list" or typ.startswith("list["):
-            return path.alloc(HList(seq=path.fresh(name, PVSEQ)))
+            ref = path.alloc(HList(seq=path.fresh(name, PVSEQ)))
+            if typ.startswith("list["):
+                path.heap[ref.rid].tag["elem"] = typ[5:-1].strip()
+            return ref
         if typ.startswith("dict{"):
             dom = [x.strip() for x in typ[5:-1].split(",")]
             ref = self.make_symbolic(path, name, "dict")
@@ -375,6 +378,7 @@ class Engine:
                 if frame is not None:
                     saved = path.frames[0].get("_path")
                     path.frames[0]["_path"] = VStr(ev["path"])
+                    path.frames[0]["_kind"] = VStr(ev["kind"])
                     goals = [path.eval_contract_expr_top(e) for e in frame]
                     path.oblige(f"{ev['kind']}#{ev['n']}", "fs-frame", z3.Or(goals + [z3.BoolVal(False)]),
                                 c.extra.get("fs_props", c.props), note=f"line {ev['line']}")
